@@ -240,6 +240,57 @@ def run(ctx):
         ctx.fail("a refused registration left an entry in the custom list: %r" % (svc._custom,), dict(stage="no_such_stage"),
                  tag="register-residue")
     ctx.case(dict(register="unknown stage"), bucket="register")
+    handler_cases(ctx, 150 if ctx.thorough else 30)
+
+
+def handler_cases(ctx, n):
+    """What was configured is what acts: service tracepoints (merged per location by convert_response) and tracepoints registered
+    in code (each its own trigger), several of them on ONE line, each with its own fire_count, driven through the real handler."""
+    from deep.config.tracepoint_config import TracepointConfigService
+    from deep.grpc import convert_response
+    from deepproto.proto.tracepoint.v1.tracepoint_pb2 import TracePointConfig
+    rng = ctx.rng
+    for _ in range(n):
+        world = e2.World(logger=True, spans=0, metrics=0)
+        clock = e2.Clock().install()
+        try:
+            counts = {}
+            resp = []
+            for i in range(rng.choice([1, 2, 3])):
+                fc = rng.choice(["-1", "1", "2", None, "3"])
+                args = {"log_msg": "m", "snapshot": "no_collect", "fire_period": "0"}
+                if fc is not None:
+                    args["fire_count"] = fc
+                resp.append(TracePointConfig(ID="svc%d" % i, path="m.py", line_number=7, args=args))
+                counts["svc%d" % i] = fc
+            svc = TracepointConfigService()
+            handles = []
+            for i in range(rng.choice([0, 1, 2])):
+                fc = rng.choice(["-1", "2", None])
+                args = {"log_msg": "m", "snapshot": "no_collect", "fire_period": "0"}
+                if fc is not None:
+                    args["fire_count"] = fc
+                handles.append(svc.add_custom("m.py", 7, args, [], []))
+                counts[handles[-1]] = fc
+            world.install(convert_response(resp) + list(svc._custom))
+            hits = rng.choice([1, 3, 5])
+            for h in range(hits):
+                clock.now = e2.BASE_NS + (h + 1) * 5_000_000
+                world.event(e2.mk_frame("/app/m.py", "g", 7, {}), "line")
+            got = {}
+            for w, tp, _i, _p in world.log:
+                if w == "log":
+                    got[tp] = got.get(tp, 0) + 1
+            want = {tp: (hits if fc == "-1" else min(hits, int(fc) if fc is not None else 1)) for tp, fc in counts.items()}
+            j = dict(on_one_line={("service " + k if k.startswith("svc") else "registered"): v for k, v in counts.items()}, hits=hits)
+            ctx.case(j, nontrivial=len(counts) > 1, bucket="handler")
+            if got != want:
+                ctx.fail("%d hits of a line carrying %d service tracepoint(s) and %d registered one(s) with fire_count %r: acted %r, "
+                         "configured %r" % (hits, len(resp), len(handles), list(counts.values()), sorted(got.items()), sorted(want.items())),
+                         j, kind="history", tag="configured-does-not-act")
+        finally:
+            clock.restore()
+            world.clear_pending()
 
 
 def replay(ctx, data):
